@@ -577,7 +577,7 @@ def _progsim_plus(names, text):
 
 HANDLERS["C13"] = _progsim_plus(["plain:enter-on-poll-names"],
                                 "One separate process (build without hooks): enter_on_poll under five names, the empty one included, polled three times each: three per-poll spans of exactly that name under the local parent, the inner spans under them.")
-HANDLERS["C14"] = _progsim_plus(["plain:stream-with-exact-size-hint"],
+HANDLERS["C14"] = _progsim_plus(["plain:stream-with-exact-size-hint", "plain:adapter-call-in-drop-while-unwinding"],
                                 "One separate process (build without hooks): a stream with the default and one with an exact size_hint, polled to None through in_span: the span has the children of every poll including the last and covers the whole run.")
 HANDLERS["C18"] = _progsim_plus(["plain:stream-with-exact-size-hint"],
                                 "One separate process (build without hooks): the span of a stream with an exact size_hint lasts until the poll that returned None (duration bracketed by the sleeps inside and the wall time of the run).")
